@@ -12,6 +12,8 @@ elaborates instantly) for the reference IR semantics `Spec.IR` (stateful).
                                -> ok ret=<v> globals=<name>=<hex>,… trace=<name>(<v>,…)=<v>;… steps=<n>
                                 | ok UB <why> | ok undef-read <why> | ok unsupported <why> | ok out-of-fuel
                                <v> = integer | f:<bits> | undef | none ;  undefined bytes print as uu
+  env <func> <fuel> <arg>*     like run, followed by  func=<f> block=<b> env=<name>=<v>,…  : the local environment of
+                               the activation that was executing when the run ended (debugging aid)
   roundtrip                    -> ok 1 iff parse (show current) = current
   show                         -> ok <sexpr of the current module>
 
@@ -69,6 +71,14 @@ def runCount (ctx : Ctx) : Nat → Nat → State → Outcome × Nat
     | .next s' => runCount ctx n (k + 1) s'
     | .done o => (o, k + 1)
 
+/-- like `runCount`, also returning the last state before the outcome (debugging aid: `env` op) -/
+def runLast (ctx : Ctx) : Nat → State → Outcome × State
+  | 0, s => (.outOfFuel, s)
+  | n + 1, s =>
+    match step ctx s with
+    | .next s' => runLast ctx n s'
+    | .done o => (o, s)
+
 def parseArg (w : String) : Option Val :=
   match w.toList with
   | 'f' :: ':' :: r => (String.ofList r).toNat?.map (fun b => .flt (Float.ofBits b.toUInt64))
@@ -97,6 +107,17 @@ def step' (st : St) (line : String) : St × String :=
   | ["wf"], some m => (st, wfReply m)
   | ["roundtrip"], some m => (st, if parseModule (showModule m) = some m then "ok 1" else "ok 0")
   | ["show"], some m => (st, "ok " ++ showModule m)
+  | "env" :: f :: fuel :: args, some m =>
+    match fuel.toNat?, args.mapM parseArg with
+    | some n, some vs =>
+      let ctx := mkCtx st.cfg m oracle
+      match initState ctx f vs with
+      | .ok s0 =>
+        let (o, s) := runLast ctx n s0
+        (st, showOutcome o ++ s!" func={s.top.fn.name} block={s.top.cur} env=" ++
+             dash (",".intercalate (s.top.env.map (fun p => p.1 ++ "=" ++ showVal p.2))))
+      | .error e => (st, showOutcome (.err e))
+    | _, _ => (st, "bad-op")
   | "run" :: f :: fuel :: args, some m =>
     match fuel.toNat?, args.mapM parseArg with
     | some n, some vs =>
